@@ -1,6 +1,7 @@
 package scen
 
 import (
+	"os"
 	"path/filepath"
 
 	"github.com/IrineSistiana/mosproxy/app/router"
@@ -66,6 +67,17 @@ func applyStartFault(rp *plan.RouterPlan, cfg *router.Config, dir string) {
 		cfg.Upstreams = append(cfg.Upstreams, router.UpstreamConfig{Tag: "noaddr"})
 	case "missing_file":
 		cfg.DomainSets = append(cfg.DomainSets, router.DomainSetConfig{Tag: "nofile", Files: []string{filepath.Join(dir, "does-not-exist.txt")}})
+	case "bad_ipmarker":
+		// (whatever was set up for the cache before the marker file is read -
+		// a memory cache, a redis client - has to be released again)
+		fp := filepath.Join(dir, "ipmarker-bad.txt")
+		if f.Pos%2 == 0 {
+			os.WriteFile(fp, []byte("192.0.2.0,192.0.2.255,net-a\nnot-an-address,192.0.2.9,net-b\n"), 0o600)
+		}
+		cfg.Cache.IpMarker = fp
+		if cfg.Cache.MemSize == 0 && cfg.Cache.Redis == "" {
+			cfg.Cache.MemSize = 1 << 20
+		}
 	case "bad_ca":
 		cfg.Upstreams = append(cfg.Upstreams, router.UpstreamConfig{Tag: "badca", Addr: "tls://10.1.1.1", Tls: router.TlsConfig{CA: filepath.Join(dir, "bad.pem")}})
 	case "no_cert":
